@@ -1,5 +1,60 @@
-from .. import AnalysisBroken
+"""C04 - hash_based and kdtree return the same exact neighbour set as the default search."""
+from ..nnabs import MOD
+from ._nn import check_bfs, check_encoder, check_extract, check_hash_based, check_kd, run_fga
+
+CLAIMED = True
+LEVEL = "other"
+TECHNIQUE = "filter-guard acceptance analysis of the kd-tree worker and LookupDB sites in default mode; affine/numeric check of the ball radius; configuration check of KDTree / extract calls; loop-nest form of the breadth-first ball"
+TEXT = ("Decides that both engines are 'sound pre-filter + exact threshold on the exact Levenshtein distance + self exclusion': the kd-tree ball radius is "
+        "c*max_edits + d with c >= sqrt(2), queried with p >= 2, eps = 0 on the very matrix the tree was built from, whose row k encodes sequence k with "
+        "one +1 per character through a character-only map (hypotheses of lemma A.2, for every compression); extract is cut at max_edits with "
+        "limit = max_returns (not the library default 5) after self-exclusion and its keys are mapped back through the choice list; hash_based probes the "
+        "breadth-first ball of DESIGN A.4 (depth 1..max_edits, snapshot expansion, unseen-only insertion, generator chosen by the flag) with the "
+        "diagonal filtered under pdist_mode=True on one and the same container; max_custom_distance is ignored without a custom distance. Grade B: "
+        "A.2-A.4 are paper lemmas; KDTree and rapidfuzz are trusted.")
+NOTE = "Trusted: scipy KDTree.query_ball_point, rapidfuzz extract / Levenshtein (prsa/libmodels.py); DESIGN Appendix A.2, A.3, A.4. Not decided: in-bounds write of the encoder (floor/ceil reasoning)."
 
 
 def run(r):
-    raise AnalysisBroken("rule set for C04 not implemented yet (fail-closed stub)")
+    rep = r.rep
+    rep.explanation = "kd-tree configuration, encoder, extract call, breadth-first ball, hash_based glue and the default-mode insertion sites of both engines were analysed."
+    rep.trust("scipy.spatial.KDTree(M).query_ball_point(M, r, p) returns, per row of M, the rows within Minkowski-p distance r", "rapidfuzz.process.extract model (libmodels)",
+              "DESIGN Appendix A.2 (composition bound sqrt(2) k), A.3 / A.4 (one-edit enumeration, breadth-first ball)")
+    check_kd(r, "C04-KD")
+    check_encoder(r, "C04-KD-ENC")
+    check_extract(r, "C04-KD-EX")
+    check_bfs(r, "C04-BFS")
+    check_hash_based(r, "C04-HB")
+    run_fga(r, "C04", {"none"}, labels={"kdtree-worker", "LookupDB.lookup"}, floor=4)
+    rep.floor("C04-KD-R", 1)
+    rep.floor("C04-KD-CFG", 6)
+    rep.floor("C04-KD-ENC", 4)
+    rep.floor("C04-KD-EX", 2)
+    rep.floor("C04-BFS", 6)
+    rep.floor("C04-HB", 8)
+
+
+from ..selftest import V  # noqa: E402
+
+N = "pyrepseq/nn.py"
+VARIANTS = [
+    V("D12-mcd-applied-in-default-mode", N, "if not is_custom or dist <= max_custom_distance:", "if dist <= max_custom_distance:", rule="C04-FGA"),
+    V("radius-sqrt-of-2k", N, '"r": np.sqrt(2) * max_edits', '"r": np.sqrt(2 * max_edits)', rule="C04-KD-R"),
+    V("radius-k", N, '"r": np.sqrt(2) * max_edits', '"r": 1.4 * max_edits', rule="C04-KD-R"),
+    V("extract-limit-dropped", N, "score_cutoff=max_edits, scorer=scorer, limit=limit", "score_cutoff=max_edits, scorer=scorer", rule="C04-KD-EX"),
+    V("bfs-depth-short", N, "    for edit_distance in range(1, max_edits + 1):", "    for edit_distance in range(1, max(2, max_edits)):", rule="C04-BFS"),
+    V("manhattan-ball", N, '"workers": n_cpu}', '"workers": n_cpu, "p": 1}', rule="C04-KD-CFG"),
+    V("encoder-position-dependent", N, "    for char in cdr3:\n        ans[position_map[char]] += 1", "    for pos, char in enumerate(cdr3):\n        ans[(position_map[char] + pos) % dimension] += 1", rule="C04-KD-ENC"),
+    V("approximate-ball", N, '"workers": n_cpu}', '"workers": n_cpu, "eps": 0.5}', rule="C04-KD-CFG"),
+    V("hash_based-no-pdist", N, "max_edits=max_edits, pdist_mode=True,", "max_edits=max_edits,", rule="C04-HB"),
+    V("bfs-expands-last-only-wrong-guard", N, "                if new_seq not in ans:\n                    ans[new_seq] = edit_distance", "                ans[new_seq] = edit_distance", rule="C04-BFS"),
+    V("worker-no-self-exclusion", N, "    choices = list(filter(lambda y_index: y_index != i, y_indices))", "    choices = list(y_indices)", rule="C04-FGA"),
+    V("worker-key-not-mapped-back", N, "        ans.append((i, choices[y_index], dist))", "        ans.append((i, y_index, dist))", rule="C04-IST"),
+    V("extract-cutoff-plus-one", N, "score_cutoff=max_edits, scorer=scorer", "score_cutoff=limit, scorer=scorer", rule="C04"),
+    V("tree-on-other-matrix", N, "    y_indices = tree.query_ball_point(matrix, **params)", "    y_indices = tree.query_ball_point(matrix[::-1], **params)", rule="C04-KD-CFG"),
+    V("encoder-double-count", N, "        ans[position_map[char]] += 1\n    return ans", "        ans[position_map[char]] += 2\n    return ans", rule="C04-KD-ENC"),
+    V("silent-radius-1.5k", N, '"r": np.sqrt(2) * max_edits', '"r": 1.5 * max_edits', expect="silent"),
+    V("silent-p-inf", N, '"workers": n_cpu}', '"workers": n_cpu, "p": np.inf}', expect="silent"),
+    V("silent-radius-epsilon", N, '"r": np.sqrt(2) * max_edits', '"r": np.sqrt(2) * max_edits + 1e-9', expect="silent"),
+    V("silent-radius-2**0.5", N, '"r": np.sqrt(2) * max_edits', '"r": max_edits * 2 ** 0.5', expect="silent"),
+]
